@@ -28,6 +28,9 @@ import (
 //	feed      deliver N correct missing pieces of blob through a fake full-bitfield peer
 //	apply     apply the pending event number Pick (mod number pending), if any
 //	applyc    apply the pending completion notice of blob, if any
+//	applyk    apply the oldest pending event of kind Event, if any
+//	incoming  a fresh remote peer opens a real TCP connection for blob (full bitfield if N is odd);
+//	          the scheduler reads its handshake and the incomingHandshakeEvent becomes pending
 //	remove    start Scheduler.RemoveTorrent(blob) on its own goroutine
 //	tick      advance the clock by Advance seconds and apply a preemption tick
 //	stop      start Scheduler.Stop on its own goroutine
@@ -37,6 +40,7 @@ type Step struct {
 	N       int    `json:"n,omitempty"`
 	Pick    int    `json:"pick,omitempty"`
 	Advance int    `json:"advance,omitempty"`
+	Event   string `json:"event,omitempty"`
 }
 
 type Case struct {
@@ -58,16 +62,24 @@ func gen(t *rapid.T) Case {
 	c.PieceLen = rapid.IntRange(3, 8).Draw(t, "pl")
 	c.SeederTTI = rapid.IntRange(1, 20).Draw(t, "seeder")
 	c.LeecherTTI = rapid.IntRange(1, 20).Draw(t, "leecher")
-	kinds := []string{"download", "download", "feed", "feed", "feed", "apply", "apply", "apply", "apply", "applyc", "remove", "tick", "tick", "stop"}
+	kinds := []string{"download", "download", "feed", "feed", "feed", "apply", "apply", "apply", "apply", "applyc", "applyk", "incoming", "remove", "tick", "tick", "stop"}
+	evKinds := []string{"newTorrentEvent", "incomingHandshakeEvent", "incomingConnEvent", "failedIncomingHandshakeEvent", "removeTorrentEvent", "connClosedEvent", "peerRemovedEvent"}
 	// Half of the cases start by driving blob 0 to the point where all pieces are written
 	// and the completion notice is pending, so that the random tail explores what can be
 	// applied before it.
-	if rapid.Bool().Draw(t, "prefix") {
+	switch rapid.IntRange(0, 3).Draw(t, "prefix") {
+	case 0, 1:
 		c.Steps = append(c.Steps, Step{Kind: "download"}, Step{Kind: "apply"})
 		if rapid.Bool().Draw(t, "second-waiter") {
 			c.Steps = append(c.Steps, Step{Kind: "download"})
 		}
 		c.Steps = append(c.Steps, Step{Kind: "feed", N: 5})
+	case 2:
+		// A remote peer connects for blob 0 while the local Download's new-torrent event
+		// is still pending (the file is already on disk): the tail decides which of the
+		// two creates the torrent's control.
+		c.Steps = append(c.Steps, Step{Kind: "download"}, Step{Kind: "incoming", N: rapid.IntRange(0, 1).Draw(t, "full")},
+			Step{Kind: "applyk", Event: "incomingHandshakeEvent"})
 	}
 	n := rapid.IntRange(3, 18).Draw(t, "nsteps")
 	for i := 0; i < n; i++ {
@@ -83,6 +95,10 @@ func gen(t *rapid.T) Case {
 			s.Pick = rapid.IntRange(0, 5).Draw(t, "pick")
 		case "tick":
 			s.Advance = rapid.IntRange(0, 25).Draw(t, "adv")
+		case "incoming":
+			s.N = rapid.IntRange(0, 1).Draw(t, "full")
+		case "applyk":
+			s.Event = rapid.SampledFrom(evKinds).Draw(t, "event")
 		}
 		c.Steps = append(c.Steps, s)
 	}
@@ -107,6 +123,22 @@ func run(c Case) pbt.Verdict {
 		}
 		return false
 	}
+	// applyEv applies a pending event and classifies what it did to the torrent's control.
+	applyEv := func(e scheduler.VerifPending) {
+		knownBefore, _ := h.VH.LocalRequest(e.InfoHash)
+		h.ApplyID(e)
+		known, local := h.VH.LocalRequest(e.InfoHash)
+		switch e.Kind {
+		case "incomingConnEvent":
+			if !knownBefore && known && !local {
+				classes["control-created-by-incoming-conn"] = true
+			}
+		case "newTorrentEvent":
+			if knownBefore && known && !local {
+				classes["download-joins-control-of-incoming-conn"] = true
+			}
+		}
+	}
 	for si, s := range c.Steps {
 		switch s.Kind {
 		case "download":
@@ -128,7 +160,7 @@ func run(c Case) pbt.Verdict {
 				classes[e.Kind+"-before-completion-notice"] = true
 			}
 			note("%d: apply %s", si, e.Kind)
-			h.ApplyID(e)
+			applyEv(e)
 		case "applyc":
 			for _, e := range h.VH.Pending() {
 				if e.Kind == "dispatcherCompleteEvent" && e.InfoHash == h.Blobs[s.Blob].MetaInfo.InfoHash() {
@@ -138,6 +170,20 @@ func run(c Case) pbt.Verdict {
 					break
 				}
 			}
+		case "applyk":
+			for _, e := range h.VH.Pending() {
+				if e.Kind == s.Event {
+					note("%d: apply oldest %s", si, e.Kind)
+					applyEv(e)
+					break
+				}
+			}
+		case "incoming":
+			if h.VH.Stopped() {
+				continue
+			}
+			h.Incoming(s.Blob, s.N%2 == 1)
+			note("%d: remote peer connects for blob %d (full bitfield=%v)", si, s.Blob, s.N%2 == 1)
 		case "remove":
 			h.StartRemove(s.Blob)
 			note("%d: remove blob %d", si, s.Blob)
@@ -193,7 +239,8 @@ func run(c Case) pbt.Verdict {
 		v.Classes = append(v.Classes, k)
 	}
 	v.NonTrivial = classes["removeTorrentEvent-before-completion-notice"] || classes["shutdownEvent-before-completion-notice"] ||
-		classes["tick-before-completion-notice"] || classes["newTorrentEvent-before-completion-notice"]
+		classes["tick-before-completion-notice"] || classes["newTorrentEvent-before-completion-notice"] ||
+		classes["download-joins-control-of-incoming-conn"]
 	if len(h.Calls) == 0 {
 		v.NonTrivial = false
 	}
@@ -203,7 +250,7 @@ func run(c Case) pbt.Verdict {
 func TestProp(t *testing.T) {
 	pbt.Main(t, pbt.Spec{
 		ID: "C17",
-		Rule: "rapid generates schedules over one agent scheduler with a harness-driven event loop: steps from {start Download (1-2 blobs), feed k correct pieces through a fake peer, apply pending event #i, apply the pending completion notice, start RemoveTorrent, clock advance + preemption tick, start Stop}; senders block exactly as with the real unbuffered loop and the case decides the order in which pending events (including the dispatcher's asynchronous completion notice) are applied. At the end all pending events are applied, the scheduler is stopped, and every Download call must have returned: nil only with the blob byte-exact in the cache, otherwise one of {not found, timed out, removed, stopped}. non-trivial = a removal, tick, shutdown or new download is applied while a completion notice is pending; distinct by case hash",
+		Rule: "rapid generates schedules over one agent scheduler with a harness-driven event loop: steps from {start Download (1-2 blobs), feed k correct pieces through a fake peer, apply pending event #i, apply the pending completion notice, apply the oldest pending event of a named kind, a remote peer opens a real TCP connection for a blob (its handshake and connection events become pending like any other), start RemoveTorrent, clock advance + preemption tick, start Stop}; senders block exactly as with the real unbuffered loop and the case decides the order in which pending events (including the dispatcher's asynchronous completion notice) are applied. At the end all pending events are applied, the scheduler is stopped, and every Download call must have returned: nil only with the blob byte-exact in the cache, otherwise one of {not found, timed out, removed, stopped}. non-trivial = a removal, tick, shutdown or new download is applied while a completion notice is pending, or a Download joins a torrent control that an incoming connection created; distinct by case hash",
 		Assumptions: []string{
 			"schedules are owned at event granularity (the order of serialized events and of the completion notice); interleavings inside one event application are not explored",
 			"a Download still blocked 8 s after the event loop has been stopped with nothing pending can never return (nothing can send to it any more)",
